@@ -367,6 +367,14 @@ class Engine:
                         for tg in st.targets:
                             if isinstance(tg, ast.Name):
                                 m.raw[tg.id] = st
+                            elif isinstance(tg, (ast.Tuple, ast.List)) and all(isinstance(e_, ast.Name) for e_ in tg.elts):
+                                # a, b, c = x, y, z at module level
+                                if isinstance(st.value, (ast.Tuple, ast.List)) and len(st.value.elts) == len(tg.elts):
+                                    for e_, v_ in zip(tg.elts, st.value.elts):
+                                        m.raw[e_.id] = ast.Assign(targets=[ast.Name(id=e_.id, ctx=ast.Store())], value=v_, lineno=st.lineno)
+                                else:
+                                    for k_, e_ in enumerate(tg.elts):
+                                        m.raw[e_.id] = ast.Assign(targets=[ast.Name(id=e_.id, ctx=ast.Store())], value=ast.Subscript(value=st.value, slice=ast.Constant(value=k_), ctx=ast.Load()), lineno=st.lineno)
                     elif isinstance(st, ast.AnnAssign) and isinstance(st.target, ast.Name) and st.value is not None:
                         m.raw[st.target.id] = st
                     elif isinstance(st, ast.Import):
@@ -434,7 +442,12 @@ class Engine:
             dn = dec.func if isinstance(dec, ast.Call) else dec
             if isinstance(dn, ast.Name) and dn.id == "dataclass":
                 kind = "dataclass"
+        base_names = [ast.unparse(b) for b in node.bases]
+        if any(bn in ("NamedTuple", "typing.NamedTuple") for bn in base_names):
+            kind = "namedtuple"
+        unknown_bases = [bn for bn, b in zip(base_names, node.bases) if bn not in ("NamedTuple", "typing.NamedTuple", "object")]
         c = ClassV(q, node, m, bases, kind)
+        c.unmodelled_bases = len(unknown_bases) != len(bases)
         for st in node.body:
             if isinstance(st, ast.FunctionDef):
                 iscm = any(isinstance(d, ast.Name) and d.id == "classmethod" for d in st.decorator_list)
@@ -509,6 +522,22 @@ class Engine:
             if len(outcomes) > max_paths:
                 raise OutOfSubset("too many paths")
         return outcomes
+
+
+#: real keyword names of library functions -> the parameter names of their models (calls by keyword are ordinary calls)
+KW_ALIASES = {
+    "linspace": {"start": "a", "stop": "b", "num": "n"},
+    "zeros": {"shape": "n"}, "empty": {"shape": "n"}, "ones": {"shape": "n"},
+    "full": {"shape": "n", "fill_value": "fill"},
+    "empty_like": {"prototype": "proto", "a": "proto"}, "ones_like": {"a": "proto"}, "full_like": {"a": "proto", "fill_value": "fill"},
+    "minimum": {"x1": "a", "x2": "b"}, "maximum": {"x1": "a", "x2": "b"},
+    "sum": {}, "cumsum": {"a": "v"}, "gradient": {"f": "y"},
+    "where": {"condition": "c", "x": "a", "y": "b"},
+    "clip": {"a_min": "lo", "a_max": "hi"},
+    "interp": {"x": "q"},
+    "array": {"object": "v"}, "asarray": {"a": "v"},
+    "any": {"a": "v"}, "all": {"a": "v"}, "diff": {"a": "v"},
+}
 
 
 #: stores into caller-owned data containers (arrays, tables, record arrays that existed when the call under contract
@@ -670,9 +699,20 @@ class Exec:
             h = self.eng.opaque.get(q)
             if h is not None:
                 a = ([f.bound] if f.bound is not None else []) + list(args)
+                # a contract installed for the callee sees the arguments in the callee's own parameter order, however the
+                # caller spelled the call (keywords are moved into their positions as far as they are contiguous)
+                kwargs = dict(kwargs)
+                if isinstance(f.node, ast.FunctionDef):
+                    params = [p_.arg for p_ in f.node.args.posonlyargs + f.node.args.args]
+                    while len(a) < len(params) and params[len(a)] in kwargs:
+                        a.append(kwargs.pop(params[len(a)]))
                 return h(self, a, kwargs)
             return self.call_funcv(f, args, kwargs)
         if isinstance(f, LibFn):
+            if kwargs:
+                al = KW_ALIASES.get(f.name.split(".")[-1]) or KW_ALIASES.get(f.name)
+                if al:
+                    kwargs = {al.get(k_, k_): v_ for k_, v_ in kwargs.items()}
             try:
                 return f.impl(self, *args, **kwargs)
             except TypeError as e:
@@ -687,6 +727,10 @@ class Exec:
             return self.instantiate(f, args, kwargs)
         if hasattr(f, "__call_model__"):
             return f.__call_model__(self, *args, **kwargs)
+        if isinstance(f, ObjV):
+            m = f.cls.lookup("__call__")
+            if isinstance(m, FuncV):
+                return self.call(m.bind(f), args, kwargs)
         raise OutOfSubset(f"call of {type(f).__name__}")
 
     def bind_args(self, f, args, kwargs):
@@ -728,14 +772,20 @@ class Exec:
             elif d is not None:
                 env[k.arg] = ("__default__", d)
         extra = [k for k in kwargs if k not in params and k not in [x.arg for x in a.kwonlyargs]]
-        if extra:
-            if a.kwarg:
-                env[a.kwarg.arg] = {k: kwargs[k] for k in extra}
-            else:
-                raise Raised("TypeError", f"unexpected keyword {extra}")
+        if a.kwarg:
+            env[a.kwarg.arg] = {k: kwargs[k] for k in extra}
+        elif extra:
+            raise Raised("TypeError", f"unexpected keyword {extra}")
         return env
 
+    HARMLESS_DECORATORS = ("staticmethod", "classmethod", "property", "dataclass", "functools.lru_cache", "lru_cache", "functools.cache", "cache", "functools.wraps", "np.vectorize", "abstractmethod")
+
     def call_funcv(self, f, args, kwargs):
+        for dec in getattr(f.node, "decorator_list", []) or []:
+            dn = dec.func if isinstance(dec, ast.Call) else dec
+            name = ast.unparse(dn)
+            if name not in self.HARMLESS_DECORATORS or name == "np.vectorize":
+                raise OutOfSubset(f"call of a function decorated with @{name}")
         env = self.bind_args(f, args, kwargs)
         fr = Frame(f.module, env, f.closure, f)
         self.frames.append(fr)
@@ -820,10 +870,19 @@ class Exec:
         if cls.kind == "namedtuple":
             names = cls.field_names
             vals = list(args)
+            if len(vals) > len(names) or any(k_ not in names or k_ in names[:len(vals)] for k_ in kwargs):
+                raise Raised("TypeError", "namedtuple arguments")
             for n in names[len(vals):]:
-                if n not in kwargs:
+                if n in kwargs:
+                    vals.append(kwargs[n])
+                elif n in cls.attrs and cls.attrs[n][0] == "default":
+                    self.frames.append(Frame(cls.module, {}, None))
+                    try:
+                        vals.append(self.eval(cls.attrs[n][1]))
+                    finally:
+                        self.frames.pop()
+                else:
                     raise Raised("TypeError", f"missing {n}")
-                vals.append(kwargs[n])
             obj.fields = dict(zip(names, vals))
             return obj
         init = cls.lookup("__init__")
@@ -863,6 +922,8 @@ class Exec:
                 self.call(post.bind(obj), [], {})
             return obj
         if args or kwargs:
+            if getattr(cls, "unmodelled_bases", False) or cls.node is None:
+                raise OutOfSubset(f"instantiation with arguments of {cls.name}, whose base classes are not modelled")
             raise Raised("TypeError")
         return obj
 
@@ -1320,7 +1381,22 @@ class Exec:
         return self.lookup(e.id)
 
     def ev_JoinedStr(self, e):
-        return "<fstring>"
+        parts = []
+        for v in e.values:
+            if isinstance(v, ast.Constant) and isinstance(v.value, str):
+                parts.append(v.value)
+            elif isinstance(v, ast.FormattedValue) and v.format_spec is None and v.conversion == -1:
+                try:
+                    x = self.eval(v.value)
+                except OutOfSubset:
+                    return "<fstring>"
+                if isinstance(x, str) and x not in ("<str>", "<fstring>", "<repr>"):
+                    parts.append(x)
+                else:
+                    return "<fstring>"
+            else:
+                return "<fstring>"
+        return "".join(parts)
 
     def ev_Tuple(self, e):
         out = []
@@ -1381,6 +1457,13 @@ class Exec:
             if c is None:
                 raise Raised("AttributeError", name)
             if isinstance(c, FuncV):
+                decs = [ast.unparse(d_.func if isinstance(d_, ast.Call) else d_) for d_ in getattr(c.node, "decorator_list", [])]
+                if "property" in decs:
+                    return self.call(c.bind(o), [], {})
+                if any(d_.endswith("cached_property") for d_ in decs):
+                    raise OutOfSubset("cached_property (state kept on the instance)")
+                if "staticmethod" in decs:
+                    return c
                 return c.bind(o.cls if c.is_classmethod else o)
             if isinstance(c, tuple):
                 self.frames.append(Frame(o.cls.module, {}, None))
